@@ -11,6 +11,7 @@ import (
 	"errors"
 	"fmt"
 	"io"
+	"math"
 	"sort"
 	"strings"
 	"testing"
@@ -103,6 +104,9 @@ type c01Opts struct {
 	closer  bool // a Close thread
 	readEnd bool // the peer may end the read side
 	viaMCP  bool // callers use mcp's call() instead of Call+Await
+	// badParams: one more caller whose parameters cannot be marshalled (NaN); its call fails
+	// without anything being written, exactly once, and leaves nothing behind
+	badParams bool
 }
 
 func c01Scenario(o c01Opts) vs.Verdict {
@@ -263,6 +267,24 @@ func c01Scenario(o c01Opts) vs.Verdict {
 			done <- i
 		})
 	}
+	if o.badParams {
+		vs.Go(func() {
+			var r CallToolResult
+			params := &CallToolParams{Name: "bad", Arguments: map[string]any{"ratio": math.NaN()}}
+			var err error
+			if o.viaMCP {
+				err = call(context.Background(), c, "bad", params, &r)
+			} else {
+				err = c.Call(context.Background(), "bad", params).Await(context.Background(), &r)
+			}
+			if err == nil {
+				fail("unmarshalable-call-succeeded", "a call whose parameters cannot be marshalled returned no error")
+			} else if _, answered := w.answered["bad"]; answered {
+				fail("unmarshalable-call-written", "a call whose parameters cannot be marshalled reached the peer")
+			}
+			done <- -3
+		})
+	}
 	if o.cancel {
 		vs.Go(func() {
 			vs.Point()
@@ -280,6 +302,9 @@ func c01Scenario(o c01Opts) vs.Verdict {
 		})
 	}
 	n := o.k
+	if o.badParams {
+		n++
+	}
 	if o.cancel {
 		n++
 	}
@@ -347,6 +372,7 @@ func TestVerifC01(t *testing.T) {
 			mk(p+"k2-write-faults", b(2, 3), c01Opts{k: 2, faults: true, readEnd: true, viaMCP: via}, vs.Options{}),
 			mk(p+"k2-cancel", b(2, 3), c01Opts{k: 2, cancel: true, readEnd: true, viaMCP: via}, vs.Options{}),
 			mk(p+"k2-close", b(2, 3), c01Opts{k: 2, closer: true, readEnd: true, viaMCP: via}, vs.Options{}),
+			mk(p+"k1-unmarshalable-params", b(2, 3), c01Opts{k: 1, badParams: true, closer: true, readEnd: true, viaMCP: via}, vs.Options{}),
 			mk(p+"k3-all", b(1, 2), c01Opts{k: 3, closer: true, cancel: true, faults: true, readEnd: true, viaMCP: via}, vs.Options{}),
 		)
 		if !q {
